@@ -109,7 +109,10 @@ Definition special : list (string * string * Z * bound) :=
     ("interp.execute", "for index := range array", 1%Z, Reenters);
     ("csvSplitter.scan", "for", 0%Z, Input);
     ("interp.nextLine", "for", 0%Z, Input);
-    ("interp.pushNulls", "for p.sp+num-1 >= len(p.stack)", 0%Z, GrowStack) ].
+    ("interp.pushNulls", "for p.sp+num-1 >= len(p.stack)", 0%Z, GrowStack);
+    (* trimASCIISpace (interp/value.go): start only increases, up to len(s); end only decreases, down to start *)
+    ("trimASCIISpace", "for start < len(s) && asciiSpace[s[start]] != 0", 0%Z, Scan);
+    ("trimASCIISpace", "for end > start && asciiSpace[s[end-1]] != 0", 0%Z, Scan) ].
 
 Fixpoint find_special (l : string * string * Z) (t : list (string * string * Z * bound)) : option bound :=
   match t with
